@@ -57,6 +57,11 @@ try:
     rc, out = sh("go build ./...", wt, 900)
     rec["build_rc"] = rc
     rc1, out1 = sh(run, wt, 900)
+    tries = 1
+    while rc1 == 0 and "-race" in run and tries < 4:  # a seeded race may need several runs to show
+        rc1, out1 = sh(run, wt, 900)
+        tries += 1
+    rec["demo_patched_tries"] = tries
     rec["demo_patched_rc"] = rc1
     rec["demo_patched_tail"] = out1[-600:]
     rc, out = sh("go test -vet=off -count=1 -timeout 25m ./... 2>&1", wt, 1800)
